@@ -104,6 +104,17 @@ def cases(draw, max_leaves=8, max_genes=24):
         kinds[anchors[1]] = 'anchor_odd'
         if dup and dup[1] in anchors:
             dup = None
+    dups = None
+    if not long_list and n_genes >= 8 and strength == 'strong' and draw(st.integers(0, 6)) == 0:
+        # several identical copies of one signal gene: exactly tied p-values, and a significance threshold placed
+        # (when the case is run) between the Holm products of the first and of the last copy - only the step-down
+        # rule (running maximum over the more significant genes) keeps the later copies out
+        free = [i for i in range(n_genes) if i not in anchors]
+        if len(free) >= 4:
+            picks = draw(st.lists(st.sampled_from(free), min_size=4, max_size=min(7, len(free)), unique=True))
+            kinds[picks[0]] = 'signal'
+            dups = {'src': picks[0], 'dsts': picks[1:]}
+            dup = None
     genes = [f'g{i}' for i in draw(gen.shuffled(list(range(n_genes))))]
     # taxonomy: one level, or two levels with a drawn grouping of the leaves
     if draw(st.booleans()):
@@ -138,7 +149,8 @@ def cases(draw, max_leaves=8, max_genes=24):
         'sizes': sizes,
         'genes': genes,
         'tree': tree,
-        'recipe': {'seed': draw(st.integers(0, 2**31 - 1)), 'kinds': kinds, 'dup': dup,
+        'p_th_rule': 'holm_band' if dups else None,
+        'recipe': {'seed': draw(st.integers(0, 2**31 - 1)), 'kinds': kinds, 'dup': dup, 'dups': dups,
                    'sd': draw(st.sampled_from([0.1, 0.3, 0.3, 1.0])),
                    'off': 'low' if pool == 'varying' else draw(st.sampled_from(['zeros', 'zeros', 'low'])),
                    'p_on': draw(st.sampled_from([0.35, 0.35, 0.5]))},
@@ -218,6 +230,9 @@ def expand_cells(spec):
             d[:, g] = np.minimum(np.abs(col), MAX_VALUE)
         if rc.get('dup'):
             d[:, rc['dup'][1]] = d[:, rc['dup'][0]]
+        if rc.get('dups'):
+            for j in rc['dups']['dsts']:
+                d[:, j] = d[:, rc['dups']['src']]
         out[leaf] = d
     return out
 
@@ -362,6 +377,36 @@ class PairModel(object):
         """True when no gene of the pair sits in a p-value band or has an undefined test, i.e. the
         p-value mask of the whole pair is decided (needed to compare relaxed markers between runs)"""
         return self.enough and not (self.undefined.any() or self.p_band.any())
+
+
+def resolve_thresholds(spec, cells):
+    """specs with p_th_rule == 'holm_band': the significance threshold is derived from the data - for the first pair
+    in which the copied gene has a positive p-value p, p_th = p x (N - r0 - (K-1)/2), where r0 genes are more
+    significant and K copies are tied: the first copy's Holm product lies above the threshold, the last one's below"""
+    if spec.get('p_th_rule') != 'holm_band' or not spec['recipe'].get('dups'):
+        return spec
+    du = spec['recipe']['dups']
+    K = 1 + len(du['dsts'])
+    for a, b in itertools.combinations(sorted(spec['leaves']), 2):
+        A, B = cells[a], cells[b]
+        if A.shape[0] < 2 or B.shape[0] < 2:
+            continue
+        with np.errstate(all='ignore'):
+            import warnings
+            with warnings.catch_warnings():
+                warnings.simplefilter('ignore')
+                p = np.asarray(ss.ttest_ind(A, B, equal_var=False, axis=0).pvalue, dtype=float)
+        p0 = p[du['src']]
+        if not np.isfinite(p0) or not (p0 > 0):
+            continue
+        ng = A.shape[1]
+        r0 = int(np.sum(np.where(np.isfinite(p), p, 1.0) < p0))
+        p_th = p0 * (ng - r0 - (K - 1) / 2.0)
+        if 1e-9 < p_th < 0.5:       # (the library rejects thresholds below 1e-11 by an explicit error)
+            out = dict(spec)
+            out['thr'] = dict(spec['thr'], p_th=float(p_th))
+            return out
+    return spec
 
 
 def pair_models(spec, cells=None):
